@@ -33,6 +33,7 @@ def induced_values(g, meta, r):
 
 
 def check(ctx, recs):
+    recs = sc.mismatch_first(recs)
     budget = 150 if ctx.quick else 2000
     budget2 = 400 if ctx.quick else 4000
     for r in recs:
@@ -66,7 +67,7 @@ def check(ctx, recs):
                 y = ox.reward_values(g, r.meta, tl2, fr)
                 if y is not None:
                     for s in live:
-                        if abs(rmr[s] - float(y[s])) > tol * (1 + float(y[s])):
+                        if abs(rmr[s] - float(y[s])) > tol + 1e-14 * abs(float(y[s])):      # absolute slack: see c02
                             ctx.violation("state %d: 'rewards under minimal reachability' %r, expected %s (Player 1 on its final strategy, "
                                           "Player 2 cheapest inside its reachability strategy)" % (s, rmr[s], y[s]), r.inp(), rew_min_reach=rmr)
         if guard == "any" or budget <= 0:
